@@ -321,7 +321,9 @@ theorem widen_sound {α} {t : ATag} {xs : List Val} {fs : List (Val → Res Val)
   | err cs0 =>
     simp only [widen] at h
     split at h
-    · cases h
+    · split at h
+      · cases h
+      cases h
       rw [Cat.mem_dedup, List.mem_append, List.mem_append] at hc
       rcases hc with (hc | hc) | hc
       · exact Or.inl ⟨_, rfl, hc⟩
@@ -341,17 +343,46 @@ theorem widen_sound {α} {t : ATag} {xs : List Val} {fs : List (Val → Res Val)
   | nondet => simp only [widen] at h; cases h
   | unmodelled w => simp only [widen] at h; cases h
 
-/-- the widening is only ever an enlargement, and only for a map-ordered array of two or more elements -/
+/-- the widening is only ever an enlargement, and only for a map-ordered array of two or more elements; for such an
+    array the model answers `nondet` instead when the outcome of some element is neither a value nor an error (that
+    element may be the first to fail under another enumeration order, with a category the model cannot name) -/
 theorem widen_keeps_first {α} {t : ATag} {xs : List Val} {fs : List (Val → Res Val)} {extra : List Cat}
     {cs0 : List Cat} :
+    (widen (α := α) t xs fs extra (.err cs0) = .nondet ∧ enum2 t xs = true ∧
+      ∃ x ∈ xs, ∃ f ∈ fs, (∀ v, f x ≠ .ok v) ∧ (∀ c, f x ≠ .err c)) ∨
     ∃ cs, widen (α := α) t xs fs extra (.err cs0) = .err cs ∧ (∀ c ∈ cs0, c ∈ cs) ∧ (enum2 t xs = false → cs = cs0) := by
   simp only [widen]
   split
   · next he =>
-    refine ⟨_, rfl, fun c hc => ?_, fun h => ?_⟩
-    · rw [Cat.mem_dedup, List.mem_append, List.mem_append]; exact Or.inl (Or.inl hc)
-    · rw [he] at h; cases h
-  · exact ⟨_, rfl, fun _ hc => hc, fun _ => rfl⟩
+    split
+    · next hu =>
+      refine Or.inl ⟨rfl, he, ?_⟩
+      simp only [List.any_eq_true] at hu
+      obtain ⟨x, hx, f, hf, hu⟩ := hu
+      refine ⟨x, hx, f, hf, fun v hv => ?_, fun c hc' => ?_⟩
+      · rw [hv] at hu; cases hu
+      · rw [hc'] at hu; cases hu
+    · refine Or.inr ⟨_, rfl, fun c hc => ?_, fun h => ?_⟩
+      · rw [Cat.mem_dedup, List.mem_append, List.mem_append]; exact Or.inl (Or.inl hc)
+      · rw [he] at h; cases h
+  · exact Or.inr ⟨_, rfl, fun _ hc => hc, fun _ => rfl⟩
+
+/-- with every element outcome a value or an error the widening is an enlargement, as before -/
+theorem widen_keeps_first_settled {α} {t : ATag} {xs : List Val} {fs : List (Val → Res Val)} {extra : List Cat}
+    {cs0 : List Cat} (hs : ∀ x ∈ xs, ∀ f ∈ fs, (∃ v, f x = .ok v) ∨ (∃ c, f x = .err c)) :
+    ∃ cs, widen (α := α) t xs fs extra (.err cs0) = .err cs ∧ (∀ c ∈ cs0, c ∈ cs) ∧ (enum2 t xs = false → cs = cs0) := by
+  rcases widen_keeps_first (α := α) (t := t) (xs := xs) (fs := fs) (extra := extra) (cs0 := cs0) with
+    ⟨_, _, x, hx, f, hf, h1, h2⟩ | h
+  · rcases hs x hx f hf with ⟨v, hv⟩ | ⟨c, hc⟩
+    · exact absurd hv (h1 v)
+    · exact absurd hc (h2 c)
+  · exact h
+
+/-- example: the second member's outcome is `nondet`, the first fails — the model declines to name the categories -/
+example : widen (α := Val) .enum [.null, .bool true] [fun x => if x.isNull then errType else .nondet] [] errType
+    = .nondet := rfl
+example : widen (α := Val) .plain [.null, .bool true] [fun x => if x.isNull then errType else .nondet] [] errType
+    = errType := rfl
 
 /-- node level: a failing multi-select hash reports categories of its failing members, or of its left-hand side -/
 theorem selectObjectCurrent_sound (root : Val) (fs : List (Bytes × INode)) (cur : Val) (env : Env) {cs : List Cat}
